@@ -288,6 +288,16 @@ func TestC15Race(t *testing.T) {
 			Violation(rt, "C15/diff-failed", "free-running WritePatch: %v %s", dr.Err, dr.Panic)
 			return
 		}
+		if rapid.IntRange(0, 2).Draw(rt, "failingdiff") == 0 {
+			// a diff whose source fails in the middle of a file (whatever the compression): it returns
+			// an error; the detector watches what its tasks and its clean-up do to each other
+			fr := Diff(oldDir, newDir, comp, DiffSeams{SourceSlice: drawSlicer(rt, "failslice"), Yield: y, FailReadAt: rapid.IntRange(1, 30).Draw(rt, "failreadat")})
+			if fr.Panic != "" {
+				Violation(rt, "C15/diff-failed", "free-running WritePatch with a failing source panicked: %s", fr.Panic)
+				return
+			}
+			Ev.ProbeIf(fr.Err != nil, "diff_failed_in_the_middle_of_a_file_under_the_race_detector")
+		}
 		or := Optimize(dr.Patch, oldDir, newDir, GenKnobs(rt), nil, y)
 		if or.Err != nil || or.Panic != "" {
 			Violation(rt, "C15/optimize-failed", "free-running Optimize: %v %s", or.Err, or.Panic)
